@@ -118,6 +118,9 @@ def run(ctx, chk):
                 neq += check_kmer_eq(chk, cfg, b, pol, what, rhs)
             elif st == "seq::slice::SeqSlice<A>" and rhs == "&str":
                 neq += check_slice_str(chk, cfg, b, what)
+        # `ne` must stay the negation of `eq`: no impl overrides it
+        an.no_overrides(chk, bio, "I-override", "sequence types", PEQ, r"^&?(seq::Seq<|seq::slice::SeqSlice<|kmer::Kmer<)", ("eq",))
+        an.no_overrides(chk, bio, "I-override", "sequence types", "std::hash::Hash", r"^&?(seq::Seq<|seq::slice::SeqSlice<|kmer::Kmer<)", ("hash",))
         # ---------- Hash ----------
         for b in bio.bodies:
             imp = b.get("impl") or {}
@@ -164,6 +167,11 @@ def run(ctx, chk):
                 r = [p for p in paths if p.end == "return"]
                 chk.ob("S-borrow", "Borrow<SeqSlice> for " + nm, len(r) == 1 and not r[0].guards and r[0].ret == ("seqview", P(1)),
                        "borrow() = %s; expected content(self)" % (show(r[0].ret) if r else "?"), b["span"])
+    import core
+    for cfg in ctx.configs():
+        chk.cfg = cfg.name
+        # (e) derived Kmer == Kmer is content-only only for canonical storage: import C09's canonical-form rows
+        core.import_rows(chk, cfg, "C09", "props.C09", ("I-canon", "R24", "G22", "R18", "R19", "R20", "I-width2", "R23", "S-rev/kmer"))
     chk.floor("eq impls over all configurations", neq, 17 * len(chk.configs))
     chk.floor("hash impls over all configurations", nhash, 3 * len(chk.configs))
 
